@@ -166,6 +166,7 @@ let main_seq file do_abs =
   let ntxn_total = ref 0 and nacq_total = ref 0 in
   let nsteps = ref 0 in
   let lazy_step = ref false in   (* Q: the shrinker may be running, no dump was taken: reply only *)
+  let rtmax = ref 0 in
   (try
      while true do
        let line = input_line ic in
@@ -177,6 +178,7 @@ let main_seq file do_abs =
          params := { p_name_max = n_of_string nm; p_maxfilesize = n_of_string mfs;
                      p_wtmax = n_of_string wt; p_ninode = n_of_string ni };
          st := init_afs (un = "1");
+         (match toks with _ :: _ :: _ :: _ :: _ :: _ :: _ :: rt :: _ -> rtmax := int_of_string rt | _ -> ());
          Printf.printf "INIT size=%s name_max=%s maxfilesize=%s wtmax=%s\n" s nm mfs wt
        | "U" :: b :: _ -> st := set_unstable !st (b = "1")
        | "C" :: rest ->
@@ -304,6 +306,14 @@ let main_seq file do_abs =
                    else detail ^ " pagemodel=differs"
                  | None -> detail)
               | _ -> detail)
+           | _ -> detail in
+         let illformed (n : byte0 list) = n = [] || List.exists (fun b -> let v = int_of_n (Extracted.to_N b) in v = 0x2f || v = 0) n in
+         let detail = match !call with
+           | Some (CCreate (_, n, _)) | Some (CMkdir (_, n)) | Some (CSymlink (_, n, _)) | Some (CRename (_, _, _, n)) when illformed n && not reply_ok -> detail ^ " name=illformed"
+           | _ -> detail in
+         let detail = match !call, !oreply with
+           | Some (CRead _), Some (OData (N0, od, _)) when !rtmax > 0 && List.length od > !rtmax ->
+             detail ^ Printf.sprintf " note=count-not-clamped(got=%d,rtmax=%d)" (List.length od) !rtmax
            | _ -> detail in
          let reply_ok = reply_ok && not (String.length detail >= 17 && (try ignore (Str.search_forward (Str.regexp_string "pagemodel=differs") detail 0); true with Not_found -> false)) in
          (* R-trace: lock/commit discipline of every transaction of this RPC *)
